@@ -35,10 +35,11 @@ class C11(PropCheck):
         if self.tier == "quick":
             # all triples, each on every length
             pass
-        ext = [None, 0, 1, -1, 2, -2, MAXI, -MAXI, MAXI - 1, -(MAXI - 1), 7, -7, 8, -8, 6, -6]
+        ext = [None, 0, 1, -1, 2, -2, MAXI, -MAXI, MAXI - 1, -(MAXI - 1), 7, -7, 8, -8, 6, -6,
+               2**31, -2**31, 2**31 - 1, 2**32, -2**32, 2**32 + 1, -(2**32 + 1), 2**32 + 2, 2**33, -(2**33), 2**52, 2**53 - 2]
         triples_ext = [t for t in itertools.product(ext, ext, ext) if any(isinstance(x, int) and abs(x) > 8 for x in t)]
         if self.tier == "quick":
-            triples_ext = self.rng.sample(triples_ext, 1500)
+            triples_ext = self.rng.sample(triples_ext, 4000)
         for L in lens:
             d = arr(L)
             for (a, b, c) in triples:
@@ -340,6 +341,25 @@ class C01(EvalProp):
             g = gen.Gen(self.rng, prof)
             for i in range(n // 2):
                 out.append(self.make_case("%s%d" % (tag, i), *g.pair()))
+        # shorthand names that begin or end with a character Unicode calls white space but JSONPath does not (the only blank
+        # characters of RFC 9535 are space, tab, LF, CR): as a segment, as a descendant segment and inside the singular queries
+        # of a comparison; the document also has the member a Unicode-aware trim would produce
+        k = 0
+        for ws in ("\u0085", "\u00a0", "\u1680", "\u2000", "\u2003", "\u200a", "\u2028", "\u2029", "\u202f", "\u205f", "\u3000", "\ufeff", "\u200b"):
+            for name in (ws + "n", "n" + ws, ws + "n" + ws, ws, ws + ws):
+                t = name.strip() or "n"
+                members = {"n": ("i", 3)}
+                members[t] = ("i", 2)
+                members[name] = ("i", 1)
+                row = ("o",) + tuple((S(k_), members[k_]) for k_ in sorted(members, key=lambda x: [ord(c) for c in x]))
+                d = ("a", row, ("o", (S(t), ("i", 1))), ("o", (S("zz"), row)))
+                for q, text in ((("q", ("sel", ("idx", 0)), ("sel", ("name", S(name)))), "$[0].%s" % name),
+                                (("q", ("desc", ("sel", ("name", S(name))))), "$..%s" % name),
+                                (("q", ("sel", ("filter", ("atom", ("cmp", "eq", ("sq", "cur", ("n", S(name))), ("lit", ("int", 1))))))), "$[?@.%s==1]" % name),
+                                (("q", ("sel", ("filter", ("atom", ("cmp", "eq", ("sq", "root", ("i", 0), ("n", S(name))), ("sq", "cur", ("n", S(t)))))))), "$[?$[0].%s==@.%s]" % (name, t)),
+                                (("q", ("sel", ("filter", ("atom", ("atest", ("rel", ("sel", ("name", S(name)))), 0))))), "$[?@.%s]" % name)):
+                    out.append(Case("w%d" % k, "EVAL", [q, d], {"query": text, "table": "unicode-space-shorthand"}, impl=("E2E", [S(text), d])))
+                    k += 1
         return out
 
     def obs(self, items):
@@ -432,6 +452,13 @@ class C03(EvalProp):
                  ("q", ("sel", ("filter", ("atom", ("cmp", "ge", ("sq", "cur"), ("lit", ("int", 995)))))))]
         for qi, q in enumerate(longq):
             out.append(self.make_case("L%d" % qi, q, big))
+        # five-digit indices
+        huge = ("a",) + tuple(("i", i % 97) for i in range(12500))
+        for qi, q in enumerate([("q", ("sel", ("idx", 12345))), ("q", ("sel", ("idx", 10001))), ("q", ("sel", ("idx", 10100))), ("q", ("sel", ("idx", -1))),
+                                ("q", ("sel", ("idx", 9999))), ("q", ("sel", ("idx", 10000))), ("q", ("sel", ("slice", 9990, 12400, 137))),
+                                ("q", ("sel", ("slice", None, 9000, -1111))), ("q", ("sel", "wild")),
+                                ("q", ("sel", ("filter", ("atom", ("cmp", "eq", ("sq", "cur"), ("lit", ("int", 96)))))))]):
+            out.append(self.make_case("H%d" % qi, q, huge))
         for qi, q in enumerate([("q", ("desc", ("sel", ("idx", 1005)))), ("q", ("desc", ("sel", ("slice", 100, 110, None)))),
                                 ("q", ("sel", ("name", S("m"))), ("sel", ("idx", 1)), ("sel", ("name", S("z"))), ("sel", ("idx", 207))),
                                 ("q", ("desc", ("sel", ("filter", ("atom", ("cmp", "eq", ("sq", "cur"), ("lit", ("int", 1200))))))))]):
@@ -1011,7 +1038,7 @@ class C07(ParseProp):
                   "extension function, and all its index/slice/singular-query integers are within the I-JSON range (C07_typing, C07_int_range: "
                   "induction over Build's recursion). The grammar is translated to Coq on every run; single-token edits of valid sentences and "
                   "arbitrary strings are run through the crate, its extracted model and the independent RFC recogniser (Concrete.v). "
-                  "Rejection is proved for 32 classes of strings (incl. every ill-typed call of the five functions in $[?f]), each for all its members: no root, bad continuation, blank space before or "
+                  "Rejection is proved for 33 classes of strings (incl. every ill-typed call of the five functions in $[?f]), each for all its members: no root, bad continuation, blank space before or "
                   "after the query, leading zeros, -0, +, fraction in an index, an index outside the I-JSON range (every such integer), "
                   "empty brackets/filter, unquoted name, bad escape, control character, half operators, missing operand, upper-case literals, "
                   "blank space after . / .. / a function name (accepted by the grammar, refused by parser.rs) and more (RejectFacts/RejectMore/RejectRange/RejectBlank: the grammar of the run executed on a fixed prefix with the rest symbolic). "
@@ -1316,6 +1343,10 @@ class C09(PropCheck):
             for text, why in (("%s['105']" % pre, "index-as-name"), ("%s[-1]" % pre, "negative"), ("%s[0105]" % pre, "leading-zero"), ("%s[1 05]" % pre, "blank-in-index")):
                 out.append(Case("c%d" % cid, "REF", [d, S(text), self.rng.choice(self.REPL)], {"path": text, "why": why, "plain": True}))
                 cid += 1
+        huge = ("a",) + tuple(("i", i % 97) for i in range(12500))
+        for i in (9999, 10000, 10001, 10100, 11011, 12345, 12354, 12499, 12500, 123450):
+            out.append(Case("c%d" % cid, "REF", [huge, S("$[%d]" % i), self.rng.choice(self.REPL)], {"path": "$[%d]" % i, "why": "long-array", "plain": True}))
+            cid += 1
         # paths reported by queries are fed back
         g = gen.Gen(self.rng, gen.Profile(odd_names=True, max_segments=3, filter_depth=1))
         for qi in range(n // 2):
